@@ -72,7 +72,7 @@ pub fn run_script(script: &Script, want_log: bool) -> Outcome {
     let sc = script.clone();
     let h = std::thread::Builder::new()
         .name("sim-run".into())
-        .stack_size(16 << 20)
+        .stack_size(family.stack_bytes())
         .spawn(move || {
             unsafe { detrand_reseed(sc.entropy_seed) };
             crate::panics::set_quiet(true);
